@@ -48,6 +48,120 @@ type effects struct {
 	direct   map[*ssa.Function][]writeSite // writes to existing objects / globals found directly in the function
 	fresh    map[*ssa.Function]int         // 0 unknown, 1 returns fresh, 2 not
 	fns      []*ssa.Function
+	// deep: the write through the parameter goes through at least one pointer loaded from memory (p.f.g = .., not
+	// p.f = ..): when the argument is a fresh copy of an existing value, such a write lands in what the copy shares
+	deep map[*ssa.Function]map[int]bool
+}
+
+// allocBase strips field and element address computations down to a local cell.
+func allocBase(v ssa.Value) *ssa.Alloc {
+	for i := 0; i < 20; i++ {
+		switch x := v.(type) {
+		case *ssa.Alloc:
+			return x
+		case *ssa.FieldAddr:
+			v = x.X
+		case *ssa.IndexAddr:
+			v = x.X
+		default:
+			return nil
+		}
+	}
+	return nil
+}
+
+// passesLoad: the address is reached through a pointer that was loaded from memory other than a local cell.
+func (e *effects) passesLoad(v ssa.Value, depth int) bool {
+	if depth > 40 {
+		return true
+	}
+	switch x := v.(type) {
+	case *ssa.FieldAddr:
+		return e.passesLoad(x.X, depth+1)
+	case *ssa.IndexAddr:
+		return e.passesLoad(x.X, depth+1)
+	case *ssa.Field:
+		return e.passesLoad(x.X, depth+1)
+	case *ssa.Index:
+		return e.passesLoad(x.X, depth+1)
+	case *ssa.Slice:
+		return e.passesLoad(x.X, depth+1)
+	case *ssa.ChangeType:
+		return e.passesLoad(x.X, depth+1)
+	case *ssa.Convert:
+		return e.passesLoad(x.X, depth+1)
+	case *ssa.ChangeInterface:
+		return e.passesLoad(x.X, depth+1)
+	case *ssa.MakeInterface:
+		return e.passesLoad(x.X, depth+1)
+	case *ssa.TypeAssert:
+		return e.passesLoad(x.X, depth+1)
+	case *ssa.Extract:
+		return e.passesLoad(x.Tuple, depth+1)
+	case *ssa.Phi:
+		for _, ed := range x.Edges {
+			if ed != v && e.passesLoad(ed, depth+1) {
+				return true
+			}
+		}
+		return false
+	case *ssa.UnOp:
+		if x.Op == token.MUL {
+			if a, ok := x.X.(*ssa.Alloc); ok {
+				// a spilled local: look at what was stored
+				if refs := a.Referrers(); refs != nil {
+					for _, r := range *refs {
+						if st, ok := r.(*ssa.Store); ok && st.Addr == a && e.passesLoad(st.Val, depth+1) {
+							return true
+						}
+					}
+				}
+				return false
+			}
+			return true
+		}
+	case *ssa.Lookup:
+		return true
+	case *ssa.Next:
+		return true
+	case *ssa.Call:
+		if b, ok := x.Call.Value.(*ssa.Builtin); ok && b.Name() == "append" {
+			return e.passesLoad(x.Call.Args[0], depth+1)
+		}
+	}
+	return false
+}
+
+// allocContent: the worst origin of anything stored into the local cell or into a field or element of it.
+func (e *effects) allocContent(a *ssa.Alloc, depth int) origin {
+	worst := origin{kind: oFresh}
+	var visit func(v ssa.Value, d int)
+	visit = func(v ssa.Value, d int) {
+		refs := v.Referrers()
+		if refs == nil || d > 6 {
+			return
+		}
+		for _, r := range *refs {
+			switch x := r.(type) {
+			case *ssa.Store:
+				if x.Addr == v {
+					if o := e.rootOf(x.Val, depth+1); o.kind > worst.kind {
+						worst = o
+					}
+				}
+			case *ssa.FieldAddr:
+				if x.X == v {
+					visit(x, d+1)
+				}
+			case *ssa.IndexAddr:
+				if x.X == v {
+					visit(x, d+1)
+				}
+			}
+		}
+	}
+	visit(a, 0)
+	return worst
 }
 
 func isOnceDo(f *ssa.Function) bool {
@@ -99,6 +213,11 @@ func (e *effects) rootOf(v ssa.Value, depth int) origin {
 			// load: the pointer read from memory; if that memory is a local cell, look at what was stored there
 			if a, ok := x.X.(*ssa.Alloc); ok {
 				return e.cellContent(a, depth+1)
+			}
+			if a := allocBase(x.X); a != nil {
+				// a pointer read from a field or element of a local value: what was put into that value (a copy of an
+				// existing struct shares everything its pointers lead to)
+				return e.allocContent(a, depth+1)
 			}
 			return e.rootOf(x.X, depth+1)
 		}
@@ -241,7 +360,17 @@ func writtenTypeOfContainer(v ssa.Value) string {
 
 func (c *Ctx) computeEffects(fns map[*ssa.Function]bool) *effects {
 	e := &effects{c: c, params: map[*ssa.Function]map[int]string{}, freevars: map[*ssa.Function]map[int]string{},
-		direct: map[*ssa.Function][]writeSite{}, fresh: map[*ssa.Function]int{}}
+		direct: map[*ssa.Function][]writeSite{}, fresh: map[*ssa.Function]int{}, deep: map[*ssa.Function]map[int]bool{}}
+	markDeep := func(f *ssa.Function, idx int) bool {
+		if e.deep[f] == nil {
+			e.deep[f] = map[int]bool{}
+		}
+		if e.deep[f][idx] {
+			return false
+		}
+		e.deep[f][idx] = true
+		return true
+	}
 	for f := range fns {
 		e.fns = append(e.fns, f)
 	}
@@ -292,6 +421,9 @@ func (c *Ctx) computeEffects(fns map[*ssa.Function]bool) *effects {
 						}
 						o := e.rootOf(x.Addr, 0)
 						if note(f, o, x.Pos(), "store to "+describeAddr(x.Addr), writtenType(x.Addr)) {
+							changed = true
+						}
+						if o.kind == oParam && e.passesLoad(x.Addr, 0) && markDeep(f, o.idx) {
 							changed = true
 						}
 					case *ssa.MapUpdate:
@@ -371,6 +503,23 @@ func (c *Ctx) computeEffects(fns map[*ssa.Function]bool) *effects {
 								o := e.rootOf(args[idx], 0)
 								if note(f, o, x.Pos(), what+" (via "+prog.SSAName(g)+")", typeOfWhat(what)) {
 									changed = true
+								}
+								if o.kind == oParam && (e.deep[g][idx] || e.passesLoad(args[idx], 0)) && markDeep(f, o.idx) {
+									changed = true
+								}
+								if o.kind == oFresh && e.deep[g][idx] {
+									// the callee writes through pointers it finds in the argument: a fresh cell that holds
+									// a copy of an existing value shares those pointers with it
+									if a := allocBase(args[idx]); a != nil {
+										if o2 := e.allocContent(a, 0); o2.kind != oFresh {
+											if note(f, o2, x.Pos(), what+" (via "+prog.SSAName(g)+", through the pointers of a copied value)", typeOfWhat(what)) {
+												changed = true
+											}
+											if o2.kind == oParam && markDeep(f, o2.idx) {
+												changed = true
+											}
+										}
+									}
 								}
 							}
 							// closure passed directly: its free-variable effects apply to the bindings
